@@ -211,6 +211,7 @@ func Family(name string, tier string) []*Scenario {
 		out = append(out, runThenExtend(thorough)...)
 		out = append(out, taskPanics(thorough)...)
 		out = append(out, readdAfterDeps(thorough)...)
+		out = append(out, unboundedRetries(thorough)...)
 	case "C14":
 		out = append(out, fourVertexSingleFault(thorough)...)
 		out = append(out, fiveVertexFaults(thorough)...)
@@ -220,6 +221,7 @@ func Family(name string, tier string) []*Scenario {
 		out = append(out, runThenExtend(thorough)...)
 		out = append(out, readdAfterDeps(thorough)...)
 		out = append(out, skipUnderLimit(thorough)...)
+		out = append(out, wrappedSkip(thorough)...)
 		for n := 1; n <= 3; n++ {
 			for _, es := range AllDAGs(n) {
 				for _, scr := range assignments(n, []string{"ok", "err", "skip"}) {
@@ -336,6 +338,8 @@ func Family(name string, tier string) []*Scenario {
 		out = append(out, readdedSharedTask(thorough)...)
 		out = append(out, limitChangedBetweenRuns(thorough)...)
 		out = append(out, skipUnderLimit(thorough)...)
+		out = append(out, serialThenLimit(thorough)...)
+		out = append(out, literalSharedTasks(thorough)...)
 		for _, sc := range retryWithOtherFault(thorough) {
 			if sc.Mode == "max1" || sc.Mode == "max2" {
 				out = append(out, sc)
@@ -928,11 +932,15 @@ func taskPanics(thorough bool) []*Scenario {
 				for i := range scr {
 					scr[i] = []string{"ok"}
 				}
-				scr[v] = []string{"panic"}
-				for _, mode := range []string{"par", "serial"} {
-					sc := GraphScenario(n, es, scr, nil, mode)
-					sc.Light = 1
-					out = append(out, sc)
+				for _, how := range []string{"panic", "goexit"} {
+					scr2 := make([][]string, n)
+					copy(scr2, scr)
+					scr2[v] = []string{how}
+					for _, mode := range []string{"par", "serial"} {
+						sc := GraphScenario(n, es, scr2, nil, mode)
+						sc.Light = 1
+						out = append(out, sc)
+					}
 				}
 			}
 		}
@@ -1031,6 +1039,80 @@ func doubleSkipSix(thorough bool) []*Scenario {
 		sc := GraphScenario(6, es, scr, nil, mode)
 		sc.Light = 2
 		out = append(out, sc)
+	}
+	return out
+}
+
+// unboundedRetries: a task with the largest possible retry budget ("retry until it works") below a dependent.
+func unboundedRetries(thorough bool) []*Scenario {
+	var out []*Scenario
+	const maxInt = int(^uint(0) >> 1)
+	for _, scr := range [][]string{{"ok"}, {"err", "err", "ok"}} {
+		for _, mode := range []string{"par", "serial"} {
+			sc := &Scenario{N: 2, Mode: mode, History: true, Light: 1,
+				Hist: []Call{{"dep", 1, 0}, {"retries", 0, maxInt}}}
+			sc.Scripts = [][]string{scr, {"ok"}}
+			out = append(out, sc)
+		}
+	}
+	return out
+}
+
+// wrappedSkip: ErrorSkipParents returned wrapped with context.
+func wrappedSkip(thorough bool) []*Scenario {
+	var out []*Scenario
+	for n := 1; n <= 3; n++ {
+		for _, es := range AllDAGs(n) {
+			if n == 3 && len(es) > 2 && !thorough {
+				continue
+			}
+			for v := 0; v < n; v++ {
+				scr := make([][]string, n)
+				for i := range scr {
+					scr[i] = []string{"ok"}
+				}
+				scr[v] = []string{"wskip"}
+				if !relevant(n, es, scr) {
+					continue
+				}
+				sc := GraphScenario(n, es, scr, nil, "par")
+				sc.Light = 1
+				out = append(out, sc)
+			}
+		}
+	}
+	return out
+}
+
+// serialThenLimit: SetSerial followed by SetMaxParallel(n > 1) on the same graph: still one task at a time.
+func serialThenLimit(thorough bool) []*Scenario {
+	var out []*Scenario
+	for _, h := range [][]Call{
+		{{"max", 2, 0}, {"add", 0, 0}, {"add", 1, 0}, {"add", 2, 0}},
+		{{"add", 0, 0}, {"add", 1, 0}, {"max", 3, 0}, {"dep", 2, 0}},
+	} {
+		sc := &Scenario{N: 3, Hist: h, Mode: "serial", History: true, Light: 1}
+		sc.Scripts = [][]string{{"ok"}, {"ok"}, {"ok"}}
+		out = append(out, sc)
+	}
+	return out
+}
+
+// literalSharedTasks: tasks built as struct literals (not through NewTask) shared by two concurrently running graphs.
+func literalSharedTasks(thorough bool) []*Scenario {
+	var out []*Scenario
+	for n := 1; n <= 2; n++ {
+		scr := make([][]string, n)
+		for i := range scr {
+			scr[i] = []string{"ok"}
+		}
+		for _, mm := range [][2]string{{"par", "par"}, {"serial", "par"}} {
+			sc := GraphScenario(n, nil, scr, nil, mm[0])
+			sc.SharedMode = mm[1]
+			sc.Shared = []int{0}
+			sc.Literal = true
+			out = append(out, sc)
+		}
 	}
 	return out
 }
